@@ -16,6 +16,8 @@ def _plain(v):
         return n if d == 1 else n / d
     if v["t"] == "b":
         return bool(v["b"])
+    if v["t"] == "N":
+        return int(uncps(v["s"]))
     return None
 
 
